@@ -14,7 +14,9 @@
      order; `field.get(i)` = the i-th such pair; `field.drain(0..N)` removes the
      first N such pairs; "remove the entry when the queue is empty" is implicit;
      `fields.keys()` = the tags that occur.  HashMap iteration order is only
-     used by `.any(..)`, so it is not observable.
+     used by `.any(..)`, so it is not observable.  A second, literal model
+     (qmap: association list tag -> queue, decipher_q) is given further down and
+     proved equal to this one (Runestone_proofs.decipher_q_eq).
    - Rust integer types: values are N; every `try_from`/`checked_*` is written
      out.  Panic sites on the modelled path:
        PANIC_OUTPUTS_U32  edict.rs `u32::try_from(tx.output.len()).unwrap()`
@@ -36,7 +38,7 @@
      artifact  := 0                                   None
                 | 1 runestone                         Some(Artifact::Runestone)
                 | 2 flaw rune? mint?                  Some(Artifact::Cenotaph); flaw = declaration index in flaw.rs
-   case  0 scripts                    -> artifact                      (Runestone::decipher)
+   case  0 scripts                    -> artifact                      (Runestone::decipher; model: decipher_q)
    case  1 scripts_pre scripts_post runestone
                                       -> len {byte} artifact           (encipher bytes, then decipher of
                                                                         pre ++ [encipher r] ++ post)
@@ -397,6 +399,137 @@ Definition decipher (outs : list (list N)) : Res (option Artifact) :=
     end
   end.
 
+(* ---- literal model of Message.fields (HashMap<u128, VecDeque<u128>>) ----
+   decipher_q below is decipher with the fields kept in an association list
+   tag -> queue, filled front to back with push_back and read with a literal
+   Tag::take; Proofs/Runestone_proofs.v (decipher_q_eq) proves decipher_q = decipher,
+   so the pair-list representation used by the theorems is not an assumption.
+   Wire op 0 runs decipher_q, wire op 1 runs decipher. *)
+(* A literal model of Message.fields: an association list tag -> queue with
+   distinct keys and no empty queue (the Rust code removes a queue as soon as it
+   is empty), and the operations the code performs on it. *)
+Definition qmap := list (N * list N).
+
+Fixpoint q_get (t : N) (q : qmap) : option (list N) :=
+  match q with [] => None | (t', l) :: r => if N.eqb t' t then Some l else q_get t r end.
+Fixpoint q_remove (t : N) (q : qmap) : qmap :=
+  match q with [] => [] | (t', l) :: r => if N.eqb t' t then r else (t', l) :: q_remove t r end.
+(* insert or overwrite *)
+Fixpoint q_set (t : N) (l : list N) (q : qmap) : qmap :=
+  match q with
+  | [] => [(t, l)]
+  | (t', l') :: r => if N.eqb t' t then (t', l) :: r else (t', l') :: q_set t l r
+  end.
+(* fields.entry(tag).or_default().push_back(value) *)
+Definition q_push (t v : N) (q : qmap) : qmap :=
+  match q_get t q with Some l => q_set t (l ++ [v]) q | None => q_set t [v] q end.
+(* field.drain(0..N); if field.is_empty() { fields.remove(tag) } *)
+Definition q_drained (t : N) (rest : list N) (q : qmap) : qmap :=
+  match rest with [] => q_remove t q | _ :: _ => q_set t rest q end.
+(* Tag::take::<1> and ::<2> *)
+Definition q_take1 {T} (t : N) (w : N -> option T) (q : qmap) : option T * qmap :=
+  match q_get t q with
+  | Some (v :: rest) =>
+    match w v with Some x => (Some x, q_drained t rest q) | None => (None, q) end
+  | _ => (None, q)
+  end.
+Definition q_take2 {T} (t : N) (w : N -> N -> option T) (q : qmap) : option T * qmap :=
+  match q_get t q with
+  | Some (v0 :: v1 :: rest) =>
+    match w v0 v1 with Some x => (Some x, q_drained t rest q) | None => (None, q) end
+  | _ => (None, q)
+  end.
+(* fields.keys().any(|tag| tag % 2 == 0) *)
+Definition q_has_even (q : qmap) : bool := existsb (fun p => N.eqb (fst p mod 2) 0) q.
+
+
+(* ---- decipher written against an abstract field store ---- *)
+Section GenericParse.
+  Variable F : Type.
+  Variable g_take1 : forall T : Type, N -> (N -> option T) -> F -> option T * F.
+  Variable g_take2 : forall T : Type, N -> (N -> N -> option T) -> F -> option T * F.
+  Variable g_even : F -> bool.
+
+  Definition g_parse_terms (fs : F) : Terms * F :=
+    let '(cap, fs) := g_take1 N TAG_Cap w_any fs in
+    let '(hs, fs) := g_take1 N TAG_HeightStart to_u64 fs in
+    let '(he, fs) := g_take1 N TAG_HeightEnd to_u64 fs in
+    let '(amt, fs) := g_take1 N TAG_Amount w_any fs in
+    let '(os, fs) := g_take1 N TAG_OffsetStart to_u64 fs in
+    let '(oe, fs) := g_take1 N TAG_OffsetEnd to_u64 fs in
+    (mkTerms amt cap hs he os oe, fs).
+
+  Definition g_parse_etching (flags : N) (fs : F) : Etching * N * F :=
+    let '(div, fs) := g_take1 N TAG_Divisibility w_divisibility fs in
+    let '(pre, fs) := g_take1 N TAG_Premine w_any fs in
+    let '(rn, fs) := g_take1 N TAG_Rune w_any fs in
+    let '(sp, fs) := g_take1 N TAG_Spacers w_spacers fs in
+    let '(sy, fs) := g_take1 N TAG_Symbol w_symbol fs in
+    let '(has_terms, flags) := flag_take FLAG_Terms flags in
+    let '(tm, fs) := if has_terms
+                     then let '(t, fs) := g_parse_terms fs in (Some t, fs)
+                     else (None, fs) in
+    let '(tb, flags) := flag_take FLAG_Turbo flags in
+    (mkEtching div pre rn sp sy tm tb, flags, fs).
+
+  (* result: flaw, candidate runestone, flags left, store left *)
+  Definition g_parse (n_out : N) (mflaw : option Flaw) (es : list Edict) (fs : F)
+    : option Flaw * Runestone * N * F :=
+    let '(fl, fs) := g_take1 N TAG_Flags w_any fs in
+    let flags := default0 fl in
+    let '(is_etching, flags) := flag_take FLAG_Etching flags in
+    let '(et, flags, fs) :=
+      if is_etching
+      then let '(e, flags, fs) := g_parse_etching flags fs in (Some e, flags, fs)
+      else (None, flags, fs) in
+    let '(mt, fs) := g_take2 RuneId TAG_Mint w_mint fs in
+    let '(pt, fs) := g_take1 N TAG_Pointer (w_pointer n_out) fs in
+    let overflow := match et with
+                    | Some e => match supply e with None => true | Some _ => false end
+                    | None => false
+                    end in
+    let flaw := or_flaw mflaw overflow SupplyOverflow in
+    let flaw := or_flaw flaw (negb (N.eqb flags 0)) UnrecognizedFlag in
+    let flaw := or_flaw flaw (g_even fs) UnrecognizedEvenTag in
+    (flaw, mkRunestone es et mt pt, flags, fs).
+End GenericParse.
+
+
+(* Message::from_integers, literally: fields filled front to back by push_back *)
+Fixpoint from_integers_q (n_out : N) (q : qmap) (ints : list N) : Res (option Flaw * list Edict * qmap) :=
+  match ints with
+  | [] => Ok (None, [], q)
+  | tag :: rest =>
+    if N.eqb TAG_Body tag then
+      do '(es, f) <- edicts_from n_out (mkId 0 0) rest;
+      Ok (f, es, q)
+    else
+      match rest with
+      | [] => Ok (Some TruncatedField, [], q)
+      | value :: rest' => from_integers_q n_out (q_push tag value q) rest'
+      end
+  end.
+
+
+(* decipher with the literal map *)
+Definition decipher_q (outs : list (list N)) : Res (option Artifact) :=
+  let n_out := len outs in
+  do p <- payload outs;
+  match p with
+  | None => Ok None
+  | Some (Invalid f) => Ok (Some (cenotaph_of_flaw f))
+  | Some (Valid bs) =>
+    do r <- integers (length bs) bs;
+    match r with
+    | None => Ok (Some (cenotaph_of_flaw FVarint))
+    | Some ints =>
+      do '(mflaw, es, q) <- from_integers_q n_out [] ints;
+      let '(flaw, r, flags, q') := g_parse qmap (@q_take1) (@q_take2) q_has_even n_out mflaw es q in
+      Ok (Some (artifact_of (mkParsed flaw r flags [])))
+    end
+  end.
+
+
 (* ---- encipher ---- *)
 Definition enc_opt (tag : N) (o : option N) : list N :=
   match o with Some v => [tag; v] | None => [] end.
@@ -593,7 +726,7 @@ Definition run_C25 (inp : list Z) : list Z :=
   match inp with
   | 0%Z :: l =>
     let '(outs, _) := rd_script_list l in
-    match decipher outs with
+    match decipher_q outs with
     | Ok a => wr_artifact a
     | _ => PANIC_LINE
     end
